@@ -40,7 +40,14 @@ pub fn expand_self<T: VisitableMut + Clone>(input: &T, to: &Type) -> T {
         fn visit_type_mut(&mut self, i: &mut Type) {
             let tself: Type = parse_quote!(Self);
             if i == &tself {
-                *i = self.to.clone();
+                // `&Self` must not become `&dyn A + B`: a trait object with several bounds is parenthesized.
+                *i = match self.to {
+                    Type::TraitObject(t) if t.bounds.len() > 1 => {
+                        let to = self.to;
+                        parse_quote!((#to))
+                    }
+                    to => to.clone(),
+                };
             } else {
                 visit_type_mut(self, i);
             }
